@@ -7,6 +7,8 @@ mkdir -p .build evidence replays
 cp /repo/go.sum harness/go.sum
 ( cd harness && for d in cmd/*/; do n=$(basename $d); go build -tags verif -o ../.build/$n ./cmd/$n 2>&1 | grep -v -e GNU-stack -e deprecated -e '^#' || true; done )
 T=$(mktemp -d); cp specs/*.tla "$T"/
+# proof modules extend TLAPS, which belongs to the proof system's library (they are checked by tlapm in the thorough tier)
+[ -f /opt/veriftools/tlapm/lib/tlapm/stdlib/TLAPS.tla ] && cp /opt/veriftools/tlapm/lib/tlapm/stdlib/TLAPS.tla "$T"/ || rm -f "$T"/*Proof.tla
 ( cd "$T" && for f in *.tla; do java -cp /opt/veriftools/tla/tla2tools.jar:/opt/veriftools/tla/CommunityModules-deps.jar tla2sany.SANY "$f" > "$f.sany" 2>&1 || { echo "SANY failed on $f"; cat "$f.sany"; exit 1; }; done )
 rm -rf "$T"
 echo setup ok
